@@ -641,6 +641,15 @@ void GridLocalPolynomial::loadConstructedPoint(const double x[], const std::vect
 
     bool isConnected = false;
     HierarchyManipulations::touchAllImmediateRelatives<effrule>(p, points, [&](int)->void{ isConnected = true; });
+    if (effrule == RuleLocal::erule::semilocalp and not isConnected){
+        // points 1 and 2 are step-parents of 4 and 3, those step-kids are relatives too (same relation as in getLargestConnected())
+        for(auto &v : p){
+            int save = v;
+            v = (save == 1) ? 4 : ((save == 2) ? 3 : -1);
+            if (v > -1 and not points.missing(p)) isConnected = true;
+            v = save;
+        }
+    }
     int lvl = RuleLocal::getLevel<effrule>(p[0]);
     for(int j=1; j<num_dimensions; j++) lvl += RuleLocal::getLevel<effrule>(p[j]);
 
